@@ -69,9 +69,7 @@ Definition spec_out (i : cinput) : expect :=
   end.
 
 (* ---- known classes, INPUT only ---- *)
-(* K1: the last URL segment starts with `_` or carries an extension: rsass keeps both in the namespace *)
-Definition known_K1 (url : string) : bool :=
-  negb (String.eqb (last_segment url) (spec_namespace url)).
+(* (class 1 - the namespace kept a leading `_` / the extension - was fixed by 18a59ef) *)
 (* K2: a configured variable is not declared with !default by the module: silently accepted *)
 Definition known_K2 (decls : list (string * Z * bool)) (cfg : list (string * Z)) : bool :=
   negb (cfg_dup cfg) && negb (forallb (fun kv => declares_default decls (fst kv)) cfg).
@@ -90,7 +88,7 @@ Definition known_K4 (a : fb_action) (pfx : option string) (e : expose) : bool :=
 
 Definition known_class (i : cinput) : Z :=
   match i with
-  | CNs url => if known_K1 url then 1 else 0
+  | CNs url => 0
   | CCfg d c => if known_K2 d c then 2 else 0
   | CFwd p e => 0
   | CFwdB a p e => if known_K4 a p e then 4 else 0
